@@ -8,6 +8,7 @@ out-of-bounds access or use of an invalid handle (DESIGN.md section 3, C08):
               itself compared with *len are accepted individually)
   REC-EMPTY   (c08_empty.py) the top digit buf[len - 1] of a recoding is read only where the recoded integer is known non-zero
   SHIFT-WIDEN an int-typed shift (`1 << i`) is never widened into a digit-typed variable
+  CEIL-ZERO   (c08_wrap.py) RLC_CEIL(A, B) = (A - 1) / B + 1 only where the unsigned A is positive
   WRAP        (c08_wrap.py) an unsigned subtraction that bounds a loop or decides a comparison cannot wrap
   WRITE-GUARD (c08_wguard.py) no write through a caller's (buffer, capacity) pair before the capacity has been examined
   CAP         a digit store into a multiple-precision integer is preceded by a capacity request that covers the index
@@ -887,6 +888,7 @@ def analyse(ctx, prog, chk, dyn=False):
         out["empty"] = c08_empty.analyse(ctx, prog, chk)
         out["shift"] = rule_shift_widen(ctx, prog, chk)
         out["wrap"] = c08_wrap.analyse(ctx, prog, chk)
+        out["ceil"] = c08_wrap.rule_ceil_zero(ctx, prog, chk)
         out["wguard"] = c08_wguard.analyse(ctx, prog, chk)
     return out
 
@@ -907,6 +909,7 @@ def run(ctx, chk):
     chk.floor("REALLOC-KEEP", "reallocations (DYN)", d["realloc"], 1)
     chk.floor("SHIFT-WIDEN", "int shifts assigned to variables (BASE)", c["shift"], 5)
     chk.floor("REC-EMPTY", "accesses to the top digit of a recoding (BASE)", c["empty"], 4)
+    chk.floor("CEIL-ZERO", "RLC_CEIL of unsigned quantities (BASE)", c["ceil"], 15)
     chk.floor("WRAP", "unsigned subtractions in conditions (BASE)", c["wrap"], 20)
     chk.floor("WRITE-GUARD", "writes through caller buffers with a capacity (BASE)", c["wguard"], 120)
     if chk.tier == "thorough":
